@@ -235,9 +235,11 @@ class SubQueryLineageHolder(ColumnLineageMixin):
         for src_col in src_table_columns:
             new_column = Column(src_col.raw_name)
             new_column.parent = tgt_table
-            if new_column in target_columns or src_col.raw_name == "*":
+            if src_col.raw_name == "*":
                 continue
-            self.graph.add_edge(tgt_table, new_column, type=EdgeType.HAS_COLUMN)
+            # a column name shared by several expanded tables is fed by each of them, whichever is expanded first
+            if new_column not in target_columns:
+                self.graph.add_edge(tgt_table, new_column, type=EdgeType.HAS_COLUMN)
             self.graph.add_edge(src_col.parent, src_col, type=EdgeType.HAS_COLUMN)
             self.graph.add_edge(src_col, new_column, type=EdgeType.LINEAGE)
         # remove wildcard, the target one only when no other source wildcard feeds it, e.g. the t1.* -> tgt.* of
